@@ -85,7 +85,7 @@ func runC05(c *Ctx) {
 		}
 		c.check(len(bad) == 0 && (nResume > 0 || delegates), "acted-on-action", fnKey(fn), p.FnPos(fn), "Acted := true precedes every Resume on accepted paths", "actor not marked acted", uniq(bad, 3)...)
 	}
-	c.floor("acted-on-action", "offered action methods", n, 7)
+	c.floor("acted-on-action", "offered action methods", n, 5)
 
 	// ---- raise-resets
 	if mover == nil {
@@ -270,7 +270,7 @@ func runC05Shortcuts(c *Ctx, ea *engineAnchors, eg *EventGraph) {
 				if e.Kind == "call" && (strings.HasSuffix(e.Callee, ".SetCurrentPlayer") || strings.HasSuffix(e.Callee, ".NextPlayer")) {
 					walks = true
 				}
-				if e.Kind == "call" && e.Fn == eg.Emit && eg.eventName(e.Args[1]) == "GameEvent_RoundClosed" {
+				if nm, ok := eg.emitName(e); ok && nm == "GameEvent_RoundClosed" {
 					closes = true
 				}
 			}
